@@ -45,6 +45,14 @@ def scenarios(ctx):
                   "finishAt": 0, "finishAtEnd": True, "conc": 2})
     fixed.append({"retryMax": 2, "crossRetry": 1, "retryGet": True, "get": True, "nobody": True, "subA": ["readhdr", "ok"], "subB": ["ok"],
                   "finishAt": 0, "finishAtEnd": True, "conc": 1})
+    # health flap: a request is in flight on the only backend while other requests fail on it (FailNum 1), the tcp health
+    # check brings it back (SuccNum 1) before the slow request finishes
+    fixed.append({"retryMax": 0, "crossRetry": 0, "retryGet": False, "get": True, "nobody": True, "subA": ["flaky"], "subB": [],
+                  "finishAt": 0, "finishAtEnd": False, "conc": 3, "flap": True})
+    for f in fixed:
+        f.setdefault("flap", False)
+    for c in cases:
+        c.setdefault("flap", False)
     return fixed + cases
 
 
@@ -75,6 +83,8 @@ def run(ctx, cases, decisive):
         shape = "finishAt=%s" % ("0" if c["finishAt"] == 0 else ("1" if c["finishAt"] == 1 else "later"))
         if c.get("finishAtEnd"):
             shape += "+end"
+        if c.get("flap"):
+            shape += "+flap"
         sig = "%s/%s/%s" % (b["why"], ev["ev"], shape)
         mine = [dict(e, **extra.get(i + 1, {})) for i, e in enumerate(events) if e["cid"] == b["cid"]]
         ctx.report(sig, "scenario %s; recorded: %s" % (json.dumps(c), str(mine)[:1500]), case=c,
